@@ -74,10 +74,10 @@ class AbstractBenchParser(AbstractParser, metaclass=abc.ABCMeta):
         if line == '' or line == '\n' or line[0] == '#':
             # Empty or comment line
             return []
-        elif line.upper().startswith('INPUT'):
+        elif line.upper().startswith('INPUT('):
             # Input Gate
             return self._process_input_gate(line)
-        elif line.upper().startswith('OUTPUT'):
+        elif line.upper().startswith('OUTPUT('):
             # Output Gate
             return self._process_output_gate(line)
         else:
